@@ -2,7 +2,9 @@
    First part (TLSF): in every reachable state no two physically adjacent regions (the null block
    included) are both free. *)
 From Coq Require Import ZArith List.
+From Coq Require Import Lia.
 From Arsenal Require Import Util Bits Gran Tlsf TlsfStep TlsfProps.
+From Arsenal Require Linear LinearInv LinearAlloc LinearFree LinearStep LinearSwap LinearVisit LinearProps.
 Open Scope Z_scope.
 
 Theorem C18_tlsf_no_adjacent_free : forall h gr size ops,
@@ -12,3 +14,36 @@ Theorem C18_tlsf_no_adjacent_free : forall h gr size ops,
                 b_free a = true -> b_free b = false.
 Proof. exact tlsf_no_adjacent_free. Qed.
 Print Assumptions C18_tlsf_no_adjacent_free.
+
+Module LinearHalf.
+Import Linear LinearInv LinearAlloc LinearFree LinearStep LinearSwap LinearVisit LinearProps.
+Import ListNotations.
+
+(* Second part, linear: a reachable state without live items IS the freshly initialised block
+   (every field equal, except possibly which physical vector is "first"), Clear changes nothing
+   on it, and two states that differ only in that flag give identical outcomes for every future
+   operation sequence. *)
+Theorem C18_linear_empty_is_fresh : forall h gr size l,
+  lcfg_ok gr size -> lreach h gr size l -> LinearInv.live l = [] ->
+  l = set_swapped (linear_init h gr size) (l_swapped l) /\ lin_clear l = l.
+Proof. exact linear_empty_is_fresh. Qed.
+Print Assumptions C18_linear_empty_is_fresh.
+
+Theorem C18_linear_swapped_is_unobservable : forall l1 l2 ops,
+  eqv l1 l2 ->
+  eqv (lrun l1 ops) (lrun l2 ops) /\
+  forall o, snd (Linear.step (lrun l1 ops) o) = snd (Linear.step (lrun l2 ops) o).
+Proof. exact linear_eqv_future. Qed.
+Print Assumptions C18_linear_swapped_is_unobservable.
+
+(* non-vacuity (linear): an admissible history through ring buffer, lazy deletion and vector swap *)
+Example C18_linear_nonvacuous :
+  lcfg_ok 1 100 /\ lreach HVam 1 100 (lrun (linear_init HVam 1 100) LinearStep.ex_ops) /\
+  map s_off (LinearInv.live (lrun (linear_init HVam 1 100) LinearStep.ex_ops)) = [0; 24]%Z.
+Proof.
+  split; [split; [lia|exists 0; split; [lia|reflexivity]]|].
+  split; [exists LinearStep.ex_ops; split; [exact (proj1 LinearStep.ex_ops_ok)|reflexivity]|].
+  exact (proj1 (proj2 LinearStep.ex_ops_ok)).
+Qed.
+
+End LinearHalf.
